@@ -146,6 +146,28 @@ def directed(ctx):
                 s = pipe.rs(rng, 2) + s
             reads.append((f"r{i}", s, "I" * len(s)))
         cases.append(dict(argv=argv, paired=False, reads1=reads, reads2=None, with_qual=True, interleaved_in=False))
+    # adapters with runs of N wildcards (UMI-style) next to plain ones, both present in the read: the N positions count for the score
+    for _ in range(ctx.scale(40, 500)):
+        plain = rng.choice(["TGGAATTCTCGG", "AAAGGGCCCTTT", "GATTACAGATTC"])
+        umi = rng.choice(["GGCCTTAA", "CCATGG", "TTAGGCAT"])
+        nrun = "N" * rng.randint(3, 10)
+        nad = rng.choice([umi + nrun, nrun + umi, umi[:4] + nrun + umi[4:]])
+        specs = [plain, nad] if rng.random() < 0.6 else [nad, plain]
+        flag = rng.choice(["-a", "-a", "-b"])
+        argv = ["--no-index"]
+        for i, sp in enumerate(specs):
+            argv += [flag, f"a{i}={sp}"]
+        if rng.random() < 0.4:
+            argv += ["--times", "2"]
+        argv += ["-o", "{dir}/o1.fastq"]
+        reads = []
+        for i in range(6):
+            inst = nad.replace("N", "x")
+            inst = "".join(rng.choice("ACGT") if c == "x" else c for c in inst)
+            parts = [pipe.rs(rng, rng.randint(3, 10))] + rng.sample([plain, inst], rng.randint(1, 2)) + [pipe.rs(rng, rng.randint(0, 5))]
+            s_ = parts[0] + (pipe.rs(rng, rng.randint(0, 4))).join(parts[1:-1]) + parts[-1]
+            reads.append((f"r{i}", s_, "I" * len(s_)))
+        cases.append(dict(argv=argv, paired=False, reads1=reads, reads2=None, with_qual=True, interleaved_in=False))
     # linked adapters on reads in which the parts occur in unusual places: the 3' part only to the *left* of the 5' part, both
     # parts overlapping (adapter dimers), a part twice - "the 3' part is searched only in what remains after the 5' part"
     pairs = [("AAAGGGCCC", "TTAGGCAT"), ("ACGGATTCAGGCTTA", "GCTTAGGACCATTGC"), ("GATTACA", "TGTAATC"), ("CCGGTTAAC", "CCGGTTAAC")]
